@@ -120,17 +120,21 @@ Fixpoint skip_digits (s : list Z) : list Z :=
 
 Definition read_number (s : list Z) : json * list Z :=
   let '(sign, s1) := match s with
-                     | 43 :: r => (1, r)
-                     | 45 :: r => (-1, r)
-                     | _ => (1, s)
+                     | c :: r => if c =? 43 then (1, r) else if c =? 45 then (-1, r) else (1, s)
+                     | [] => (1, s)
                      end in
   let '(ires, inexact, s2) := read_digits s1 0 false in
+  let plain := (if inexact then JFloat else JInt (sign * ires), s2) in
   match s2 with
-  | 46 :: r => (JFloat, skip_digits r)                                  (* '.' fraction; a following e is NOT consumed *)
-  | 101 :: r =>                                                         (* 'e' exponent *)
-      let r' := match r with 43 :: t => t | 45 :: t => t | _ => r end in
-      (JFloat, skip_digits r')
-  | _ => (if inexact then JFloat else JInt (sign * ires), s2)
+  | c :: r =>
+      if c =? 46 then (JFloat, skip_digits r)                           (* '.' fraction; a following e is NOT consumed *)
+      else if c =? 101 then                                             (* 'e' exponent *)
+        (JFloat, skip_digits (match r with
+                              | c2 :: t => if (c2 =? 43) || (c2 =? 45) then t else r
+                              | [] => r
+                              end))
+      else plain
+  | [] => plain
   end.
 
 Fixpoint skip_ws (s : list Z) : list Z :=
@@ -200,13 +204,15 @@ with jobj (fuel : nat) (depth : Z) (s : list Z) (comma : bool) (acc : list (json
             match jread f depth s with
             | Ok (k, r1) =>
                 match skip_ws r1 with
-                | 58 :: r2 =>
-                    match jread f depth r2 with
-                    | Ok (v, r3) => jobj f depth r3 false ((k, v) :: acc)
-                    | Err => Err
-                    | Fuel => Fuel
-                    end
-                | _ => Err                                    (* missing colon *)
+                | c :: r2 =>
+                    if c =? 58 then
+                      match jread f depth r2 with
+                      | Ok (v, r3) => jobj f depth r3 false ((k, v) :: acc)
+                      | Err => Err
+                      | Fuel => Fuel
+                      end
+                    else Err                                  (* missing colon *)
+                | [] => Err
                 end
             | Err => Err
             | Fuel => Fuel
